@@ -138,6 +138,22 @@ func (w *World) forkAtWait(c *ContactState, rec *SessionRec, live flows.Session,
 			acceptedType = typ
 		}
 		firsts = append(firsts, first{typ, fo, s2, sa2})
+		// which resume types a wait takes is part of its contract (reference table, not read from the code):
+		// a message wait takes messages, expirations and - if it has a timeout - timeouts; a dial wait takes
+		// only the end of the dialled call. Judged below the resume limit, where nothing else decides first.
+		if want, known := w.referenceAcceptance(sa2, rec.JSON, typ); known && countWaits(rec.JSON) < w.Sc.Opt.MaxResumesPerSession {
+			got := !fo.rejected
+			if fo.rejected && fo.code != 103 {
+				continue // not waiting / no waiting run: another clause
+			}
+			w.probe("c10_acceptance_judged")
+			if got != want.accept {
+				v("wait-acceptance", fmt.Sprintf("acceptance/%s-wait/%s/accepted=%v", want.waitType, typ, got),
+					fmt.Sprintf("a %s wait (timeout defined: %v) %s a %s resume (err=%v, events=[%s]); its contract says the opposite", want.waitType, want.hasTimeout,
+						map[bool]string{true: "accepted", false: "rejected"}[got], typ, fo.err, eventTypes(fo.o.Events)))
+				return
+			}
+		}
 	}
 	// pass 2: the rejected ones
 	for _, f := range firsts {
@@ -536,6 +552,40 @@ func parentLocation(sessionJSON []byte) string {
 
 // waitingLocation extracts, from the persisted JSON alone, the flow of the waiting run,
 // the flow of its parent and the node it waits on.
+type acceptance struct {
+	waitType   string
+	hasTimeout bool
+	accept     bool
+}
+
+// referenceAcceptance says whether the wait the session sits at takes a resume of the given type.
+func (w *World) referenceAcceptance(sa *SA, sessionJSON []byte, typ string) (acceptance, bool) {
+	wf, _, nodeUUID := waitingLocation(sessionJSON)
+	var a acceptance
+	ok := false
+	guarded(func() {
+		fl, err := sa.Flows().Get(assets.FlowUUID(wf))
+		if err != nil || fl == nil {
+			return
+		}
+		n := fl.GetNode(flows.NodeUUID(nodeUUID))
+		if n == nil || n.Router() == nil || n.Router().Wait() == nil {
+			return
+		}
+		wt := n.Router().Wait()
+		a.waitType, a.hasTimeout = wt.Type(), wt.Timeout() != nil
+		switch a.waitType {
+		case "msg":
+			a.accept = typ == "msg" || typ == "run_expiration" || (typ == "wait_timeout" && a.hasTimeout)
+			ok = true
+		case "dial":
+			a.accept = typ == "dial"
+			ok = true
+		}
+	})
+	return a, ok
+}
+
 func waitingLocation(sessionJSON []byte) (flowUUID, parentFlowUUID, nodeUUID string) {
 	var s struct {
 		Runs []struct {
